@@ -141,7 +141,7 @@ Lemma take_args_ok (P : value -> Prop) n k : P VVoid -> Forall P k ->
   Forall P (fst (take_args n k)) /\ Forall P (snd (take_args n k)).
 Proof.
   intros Hv H. unfold take_args; simpl. split.
-  - apply Forall_app; split; [apply Forall_repeat; assumption|]. apply Forall_rev, Forall_firstn; assumption.
+  - apply Forall_app; split; [apply Forall_repeat; assumption|]. rewrite <- rev_alt. apply Forall_rev, Forall_firstn; assumption.
   - apply Forall_skipn; assumption.
 Qed.
 Lemma get_bot_ok (P : value -> Prop) k a v : Forall P k -> get_bot k a = Some v -> P v.
